@@ -335,7 +335,7 @@ class Run:
         for attempt in range(25):
             part = trace + ".part"
             try:
-                r = harness(["replay", cur, part], timeout=self.plan.get("replay_timeout", 900))
+                r = harness(["replay", cur, part], timeout=self.plan.get("replay_timeout", 300 if self.tier == "quick" else 1200))
                 rc, timed = r.returncode, False
             except subprocess.TimeoutExpired:
                 rc, timed = -9, True
